@@ -258,7 +258,11 @@ func CheckC14(p *Pkg, e *Env, r *res.Result) {
 				if m == "" {
 					m = "GET"
 				}
-				req = httptest.NewRequest(m, "http://h.example/", bytes.NewReader(body))
+				if rapid.IntRange(0, 3).Draw(t, "unknown_length") == 0 {
+					req = httptest.NewRequest(m, "http://h.example/", BodyOfUnknownLength(body))
+				} else {
+					req = httptest.NewRequest(m, "http://h.example/", bytes.NewReader(body))
+				}
 			}()
 			if req == nil {
 				r.Label("not-deliverable")
